@@ -20,6 +20,12 @@ checks = {
          "For each base scenario every single fault of the listed kinds is injected, one per execution (quick ~130k, thorough ~1.6M faulted executions): the client must see a non-OK outcome, the backend never a complete-looking message the client did not finish, the error must be well formed where the protocol allows it, ServeHTTP must return. Exhaustive per base scenario for cut offsets and flag values; base scenarios are sampled.", "5/C09"),
  "C11": ("fault_enumeration", "recover()/journal/watchdog monitors and net/http framing assertions over structure-aware hostile inputs and hostile backend scripts",
          "60k (quick) / 1.2M (thorough) executions of ServeHTTP with requests mutated by 0..4 hostile operators and backends following hostile scripts; any panic that is not the backend's own scripted panic, any process death, any response net/http could not frame (status range, Content-Length vs bytes, body on 204/304), a second response head, I/O after return or a double dispatch is a violation. Says nothing about inputs outside the generator's reach.", "5/C11"),
+ "C12": ("exploration", "exact-arithmetic reference grammars (math/big) over boundary-enumerated timeout strings",
+         "20k/300k (client form, target, timeout string) cases incl. every digit-count and unit boundary (thorough: every 1..3 digit gRPC value x unit); backend-observed deadline compared with the client's in exact rational arithmetic: never extended, short by less than the target encoding's rounding unit, absent stays absent, valid never rejected, malformed rejected with 4xx before dispatch.", "5/C12"),
+ "C13": ("exploration", "deep snapshot equality of request and response across the transcoder on the no-conversion and unknown-endpoint paths",
+         "20k/300k requests whose triple the service accepts (pass-through) or whose path matches nothing (unknown-endpoint handler), with arbitrary headers, queries, bodies and lengths; the downstream handler's view must equal a snapshot taken before ServeHTTP, and the client must receive exactly what the handler wrote.", "5/C13"),
+ "C18": ("fault_enumeration", "invocation counters, context capture and after-return I/O flags over an enumeration of rejection classes and exit paths",
+         "18 rejection classes x client forms x random configurations and 5 exit-path classes (30k/600k executions, race-detector build): at most one dispatch, none for rejected requests, handler context cancelled and no reads/writes after ServeHTTP returned.", "5/C18"),
  "C05": ("exploration", "per-key metadata equality + position check + status-key leak monitor",
          "Random application header/trailer sets are pushed through every client-form/target pairing (20k/300k scenarios); per-key ordered value equality in both directions, trailers in the position the client's protocol defines, no protocol status key in application metadata.", "5/C05"),
 }
